@@ -178,6 +178,8 @@ SIMW_FN __m256i _mm256_sub_epi32(__m256i a, __m256i b) { __m256i r; for (int i =
 SIMW_FN __m256i _mm256_cmpeq_epi32(__m256i a, __m256i b) { __m256i r; for (int i = 0; i < 4; i++) r.v[i] = simw::mk(simw::hi(a.v[i]) == simw::hi(b.v[i]) ? ~0ULL : 0, simw::lo(a.v[i]) == simw::lo(b.v[i]) ? ~0ULL : 0); return r; }
 SIMW_FN __m512i _mm512_min_epu64(__m512i a, __m512i b) { __m512i r; SIMW_LOOP8(((a.v[i] & simw::LM) < (b.v[i] & simw::LM)) ? a.v[i] : b.v[i]); return r; }
 SIMW_FN __m512i _mm512_max_epu64(__m512i a, __m512i b) { __m512i r; SIMW_LOOP8(((a.v[i] & simw::LM) > (b.v[i] & simw::LM)) ? a.v[i] : b.v[i]); return r; }
+SIMW_FN __m512i _mm512_min_epi64(__m512i a, __m512i b) { __m512i r; SIMW_LOOP8(simw::sgt_lane(a.v[i], b.v[i]) ? b.v[i] : a.v[i]); return r; }
+SIMW_FN __m512i _mm512_max_epi64(__m512i a, __m512i b) { __m512i r; SIMW_LOOP8(simw::sgt_lane(a.v[i], b.v[i]) ? a.v[i] : b.v[i]); return r; }
 SIMW_FN __m512i _mm512_andnot_si512(__m512i a, __m512i b) { __m512i r; SIMW_LOOP8(~a.v[i] & b.v[i]); return r; }
 SIMW_FN __m512i _mm512_ternarylogic_epi64(__m512i a, __m512i b, __m512i c, int imm) { __m512i r; for (int i = 0; i < 8; i++) { uint64_t o = 0; for (int bit = 0; bit < 64; bit++) { int idx = (int)(((a.v[i] >> bit) & 1) << 2 | ((b.v[i] >> bit) & 1) << 1 | ((c.v[i] >> bit) & 1)); if ((imm >> idx) & 1) o |= 1ULL << bit; } r.v[i] = o & simw::LM; } return r; }
 SIMW_FN __m256i _mm256_cmpeq_epi64(__m256i a, __m256i b) { __m256i r; for (int i = 0; i < 4; i++) { bool e = (a.v[i] & simw::LM) == (b.v[i] & simw::LM); simw::sigbit(i, e); r.v[i] = e ? simw::LM : 0; } return r; }
